@@ -180,7 +180,7 @@ def run(ctx):
                 cases.append((name, restyle(var, *st), ref))
                 meta.append((name, kind, feat, st))
                 per_kind[kind.split(":")[0]] += 1
-        if not ctx.quick and len(base) < 140 or (ctx.quick and name == "minimal"):
+        if not ctx.quick or name == "minimal":
             # every pair of single edits at distinct sites, composed on the text via line/offset-preserving order:
             # apply the second edit to the result of the first when both are line insertions / comments (commuting sites)
             ins = [e for e in usable if e[0].startswith(("inserted-line", "trailing-comment"))]
